@@ -223,3 +223,54 @@ def build_input(prob, cfg, trace=False, extra_solution=""):
     txt.append("SELECTED_OUTPUT 1\n -reset false\nUSER_PUNCH 1\n -headings " + " ".join(heads) + "\n 10 PUNCH " +
                ", ".join(items) + "\nEND\n")
     return "".join(txt)
+
+
+# ----------------------------------------------------------------------------------------------------------------
+# correspondence family: rates polynomial in TOTAL_TIME and M (every stage value is determined by the model's inputs)
+# ----------------------------------------------------------------------------------------------------------------
+POLY_NAMES = ["R1", "R2", "R3"]
+POLY_FORMULA = ["Xa 1", "Xb 1", "Xc 1"]
+
+
+def gen_poly(rng):
+    """spec of one single-reaction-step RK run: dict(T, rk, step_divide, bad_step_max, comps=[dict(m, tol, p[6])])"""
+    n = rng.choice([1, 1, 2, 3])
+    T = 10 ** rng.uniform(0, 4)
+    scale = rng.choice([1.0, 1.0, 1.0, 1e-3, 1e-7])       # small rates reach the early exits of -runge_kutta 1/2/3
+    comps = []
+    for j in range(n):
+        m = 10 ** rng.uniform(-3, 0.3)
+        tol = 10 ** rng.uniform(-9, -5)
+        k = rng.choice([0.0, 0.1, 1.0, 5.0, 20.0]) * rng.uniform(0.5, 1.5) / T
+        if rng.random() < 0.2:
+            k = -min(k, 1.0 / T)
+        p1 = m / T * rng.uniform(-0.3, 2.0) * rng.choice([0.0, 0.01, 1.0])
+        p = [p1 * scale, p1 / T * rng.uniform(-1, 1) * scale, p1 / T / T * rng.uniform(-1, 1) * scale * rng.choice([0, 1]),
+             k * scale, k / T * rng.uniform(-1, 1) * scale * rng.choice([0, 1]),
+             rng.uniform(-0.5, 0.5) / T * rng.choice([0.0, 0.0, 1.0]) * scale]
+        comps.append({"m": m, "tol": tol, "p": p})
+    return {"T": T, "rk": rng.choice([1, 2, 3, 6, 6, 6, 0, 4, 9]), "step_divide": rng.choice([1, 1, 1, 2, 7.5, 100, 0.05, 0.003]),
+            "bad_step_max": rng.choice([500, 500, 5, 50]), "comps": comps}
+
+
+def poly_input(spec):
+    n = len(spec["comps"])
+    txt = [TRACER_DB, "SOLUTION 1\n pH 7 charge\n Na 1\n Cl 1\n -units mol/kgw\n Xa 0.6\n Xb 0.6\n Xc 0.6\n -water 1\nRATES\n"]
+    for j in range(n):
+        other = POLY_NAMES[(j + 1) % n]
+        nm = POLY_NAMES[j]
+        txt.append(f" {nm}\n -start\n 10 t = TOTAL_TIME\n"
+                   f" 20 rate = PARM(1) + PARM(2)*t + PARM(3)*t*t + PARM(4)*M + PARM(5)*M*t + PARM(6)*KIN(\"{other}\")\n"
+                   f" 30 moles = rate * TIME\n 40 d = CALLBACK(t, M, \"{nm}\")\n 50 d = CALLBACK(TIME, moles, \"{nm}_\")\n"
+                   f" 60 SAVE moles\n -end\n")
+    txt.append("KINETICS 1\n")
+    for j, c in enumerate(spec["comps"]):
+        txt.append(f" {POLY_NAMES[j]}\n  -formula {POLY_FORMULA[j]}\n  -m {fmt(c['m'])}\n  -m0 {fmt(c['m'])}\n"
+                   f"  -parms {' '.join(fmt(x) for x in c['p'])}\n  -tol {fmt(c['tol'])}\n")
+    txt.append(f" -steps {fmt(spec['T'])}\n -runge_kutta {spec['rk']}\n -step_divide {fmt(spec['step_divide'])}\n"
+               f" -bad_step_max {spec['bad_step_max']}\n")
+    heads = ["step"] + [f"m_{POLY_NAMES[j]}" for j in range(n)]
+    items = ["STEP_NO"] + [f'KIN("{POLY_NAMES[j]}")' for j in range(n)]
+    txt.append("SELECTED_OUTPUT 1\n -reset false\nUSER_PUNCH 1\n -headings " + " ".join(heads) + "\n 10 PUNCH " +
+               ", ".join(items) + "\nEND\n")
+    return "".join(txt)
